@@ -172,9 +172,113 @@ def targeted():
     return out
 
 
+def targeted_length_boundary():
+    """Arrays (fixed and variable) of delimited elements whose OLD revision has variable-length content.  Values of the NEW
+    revision are chosen so that the serialized element is exactly as long as the old revision's longest representation (and one
+    byte shorter / longer) while the part the old revision knows is NOT full; the element is followed by further elements and
+    by a trailing field, and everything is read with the old revision (and, for symmetry, old data with the new one).
+    All fields are byte aligned, so lengths are sums of bytes."""
+    out = []
+    nid = [3500]
+
+    def St(fields):
+        nid[0] += 1
+        return ["struct", nid[0], [[("f%d" % i) if ft[0] != "void" else None, ft] for i, ft in enumerate(fields)]]
+
+    def Un(fields):
+        nid[0] += 1
+        return ["union", nid[0], [["v%d" % i, ft] for i, ft in enumerate(fields)]]
+
+    def nbytes(ft, v):
+        k = ft[0]
+        if k == "u":
+            return ft[1] // 8
+        if k == "var":
+            es = 1 if ft[1][0] in ("byte", "utf8") else ft[1][1] // 8
+            return 1 + es * len(v[1])
+        raise ValueError(k)
+
+    def val(ft, n, salt):
+        if ft[0] == "u":
+            return ["I", (0xA5A5A5A5 + salt * 0x1111) % 2 ** ft[1]]
+        if ft[1][0] == "byte":
+            return ["Y", [(salt + 3 * i + 1) % 256 for i in range(n)]]
+        if ft[1][0] == "utf8":
+            return ["S", [0x61 + (salt + i) % 26 for i in range(n)]]
+        return ["L", [["I", (salt * 257 + 1000 * i + 1) % 2 ** ft[1][1]] for i in range(n)]]
+
+    olds = [
+        [["d0", ["var", ["u", 8, "s"], 3]]],                                   # the shape of the seeded example
+        [["d0", ["u", 8, "s"]], ["d1", ["var", ["byte"], 4]]],
+        [["d0", ["var", ["u", 16, "t"], 2]], ["d1", ["var", ["utf8"], 3]]],
+    ]
+    apps = [
+        [["a0", ["u", 16, "s"]]],
+        [["a0", ["u", 8, "t"]]],
+        [["a0", ["var", ["byte"], 6]]],
+        [["a0", ["u", 32, "s"]], ["a1", ["var", ["u", 8, "s"], 2]]],
+    ]
+    salt = [0]
+    for old in olds:
+        old_max = sum(nbytes(ft, ["L", [None] * ft[2]]) if ft[0] == "var" else ft[1] // 8 for _, ft in old)
+        for app in apps:
+            ext = S.max_len(["struct", 9000, old + app]) + 8
+            # all fillings of the variable-length fields; keep the elements whose new-revision length is old_max-1, old_max, old_max+1
+            var_fields = [(n, ft) for n, ft in old + app if ft[0] == "var"]
+            fills = [[]]
+            for _, ft in var_fields:
+                fills = [f + [k] for f in fills for k in range(ft[2] + 1)]
+            elems = {}
+            for f in fills:
+                it = iter(f)
+                vs = []
+                for n, ft in old + app:
+                    salt[0] += 1
+                    vs.append(val(ft, next(it) if ft[0] == "var" else 0, salt[0]))
+                ln = sum(nbytes(ft, v) for (_, ft), v in zip(old + app, vs))
+                old_full = all(len(v[1]) == ft[2] for (_, ft), v in zip(old, vs) if ft[0] == "var")
+                d = ln - old_max
+                if d in (-1, 0, 1) and not old_full:
+                    elems.setdefault(d, []).append(["T", vs])
+            plain_new = ["T", [val(ft, 1 if ft[0] == "var" else 0, 7) for _, ft in old + app]]
+            plain_old = ["T", [val(ft, ft[2] if ft[0] == "var" else 0, 9) for _, ft in old]]          # old revision, full
+            short_old = ["T", [val(ft, 0, 11) for _, ft in old]]
+            for d in (-1, 0, 1):
+                for special in elems.get(d, [])[:3]:
+                    conts_vals = [
+                        (St([["var", HOLE, 3], ["u", 16, "s"]]), ["T", [["L", [special, plain_new, special]], ["I", 0xBEEF]]]),
+                        (St([["fix", HOLE, 2], ["u", 8, "s"]]), ["T", [["L", [special, plain_new]], ["I", 0x5A]]]),
+                        (St([["u", 8, "s"], ["var", HOLE, 2], ["var", ["byte"], 2]]), ["T", [["I", 1], ["L", [special, special]], ["Y", [0xC3, 0x3C]]]]),
+                        (Un([["bool"], ["fix", HOLE, 2]]), ["U", 1, ["L", [special, plain_new]]]),
+                        (St([["delim", St([["fix", HOLE, 2], ["u", 8, "s"]]), ["slack", 8]], ["u", 8, "s"]]),
+                         ["T", [["T", [["L", [plain_new, special]], ["I", 0x11]]], ["I", 0x22]]]),
+                        (St([HOLE, HOLE, ["u", 8, "s"]]), ["T", [special, plain_new, ["I", 0x33]]]),
+                    ]
+                    for c, v in conts_vals:
+                        out.append({"cont": c, "old": old, "app": app, "ext": ext, "dir": "n2o", "val": v})
+            # old data (full / empty variable part) read with the new revision
+            out.append({"cont": St([["var", HOLE, 3], ["u", 16, "s"]]), "old": old, "app": app, "ext": ext, "dir": "o2n",
+                        "val": ["T", [["L", [plain_old, short_old, plain_old]], ["I", 0xBEEF]]]})
+            out.append({"cont": St([["fix", HOLE, 2], ["u", 8, "s"]]), "old": old, "app": app, "ext": ext, "dir": "o2n",
+                        "val": ["T", [["L", [short_old, plain_old]], ["I", 0x5A]]]})
+    return out
+
+
+def corpus():
+    """Minimised cases that once witnessed a (seeded) defect: corpus/C14/*.json, always first."""
+    import glob
+    import json
+    import os
+    d = os.path.join(os.path.dirname(os.path.dirname(os.path.dirname(os.path.abspath(__file__)))), "corpus", "C14")
+    return [json.load(open(f)) for f in sorted(glob.glob(os.path.join(d, "*.json")))]
+
+
 def generate(rng, tier):
-    cases = targeted()
-    streams = ["targeted"] * len(cases)
+    cases = corpus()
+    streams = ["corpus"] * len(cases)
+    tg = targeted() + targeted_length_boundary()
+    cases += tg
+    streams += ["targeted"] * len(tg)
     n = 3500 if tier == "quick" else 25000
     for _ in range(n):
         cases.append(gen_case(rng, tier))
